@@ -57,7 +57,15 @@ const POSITIONS: [(&str, &str, &str); 30] = [
 ];
 
 /// whole programs with one structural type error (name, source)
-const STRUCTURAL: [(&str, &str); 32] = [
+const STRUCTURAL: [(&str, &str); 39] = [
+    // a struct that holds a value of its own type has no finite size (Go: invalid recursive type)
+    ("struct-holding-itself", "struct Node { v: int32, next: Node }\nfn main() { string_println(\"x\") }"),
+    ("struct-holding-itself-in-a-tuple", "struct Node { next: (int32, Node) }\nfn main() { string_println(\"x\") }"),
+    ("struct-holding-itself-in-an-array", "struct Node { kids: [Node; 2] }\nfn main() { string_println(\"x\") }"),
+    ("two-structs-holding-each-other", "struct Aa { b: Bb }\nstruct Bb { a: Aa }\nfn main() { string_println(\"x\") }"),
+    ("struct-holding-itself-in-a-generic-struct", "struct Wrap[T] { v: T }\nstruct Node { next: Wrap[Node] }\nfn main() { string_println(\"x\") }"),
+    ("generic-struct-holding-itself", "struct Chain[T] { v: T, next: Chain[T] }\nfn main() { string_println(\"x\") }"),
+    ("struct-holding-itself-three-structs-away", "struct Na { b: Nb }\nstruct Nb { c: (Nc, int32) }\nstruct Nc { a: [Na; 1] }\nfn main() { string_println(\"x\") }"),
     ("array-length-annotation", "fn main() { let a: [int32; 3] = [1, 2]; string_println(\"x\") }"),
     ("array-length-param", "fn f(a: [int32; 2]) -> int32 { array_get(a, 0) }\nfn main() { string_println(int32_to_string(f([1, 2, 3]))) }"),
     ("array-length-return", "fn f() -> [int32; 2] { [1, 2, 3] }\nfn main() { string_println(int32_to_string(array_get(f(), 0))) }"),
@@ -141,6 +149,28 @@ const LITTYPES: [(&str, &str, &str, &str); 10] = [
     ("tuple", "(int32, int32)", "(1, 2)", "-"),
     ("struct", "P", "P { a: 1 }", "-"),
 ];
+/// (name, type with L for the length, a value holding an array of three elements)
+const ARRAY_NESTS: [(&str, &str, &str); 6] = [
+    ("bare", "[int32; L]", "[1, 2, 3]"),
+    ("in-a-ref", "Ref[[int32; L]]", "ref([1, 2, 3])"),
+    ("in-a-tuple", "([int32; L], bool)", "([1, 2, 3], true)"),
+    ("in-a-vector", "Vec[[int32; L]]", "vec_push(vec_new(), [1, 2, 3])"),
+    ("in-a-generic-enum", "GOpt[[int32; L]]", "GSom([1, 2, 3])"),
+    ("array-of-arrays", "[[int32; L]; 1]", "[[1, 2, 3]]"),
+];
+/// 2^64 - 1 is the number the compiler itself uses for "any length"
+const ARRAY_LENGTHS: [&str; 7] = ["3", "2", "0", "4", "9223372036854775807", "18446744073709551615", "18446744073709551616"];
+/// (type, suffix, largest value, unused)
+const INT_RANGES: [(&str, &str, u128, u8); 8] = [
+    ("int8", "i8", 127, 0),
+    ("int16", "i16", 32767, 0),
+    ("int32", "i32", 2147483647, 0),
+    ("int64", "i64", 9223372036854775807, 0),
+    ("uint8", "u8", 255, 0),
+    ("uint16", "u16", 65535, 0),
+    ("uint32", "u32", 4294967295, 0),
+    ("uint64", "u64", 18446744073709551615, 0),
+];
 /// where the pattern stands; in all but the first the scrutinee's type is still being inferred when
 /// the pattern is checked. § = literal pattern, @ = value, % = annotation
 const LITPOSITIONS: [(&str, &str); 6] = [
@@ -207,10 +237,10 @@ impl Family for IllTyped {
         "illtyped"
     }
     fn serves(&self) -> &'static [&'static str] {
-        &["C03", "C04"]
+        &["C03", "C04", "C10"]
     }
     fn rule(&self) -> &'static str {
-        "30 typed positions (operator operands, annotated let, parameters, conditions, return position, struct field, constructor payload, array element/index/set, ref_set, vec_push, branches, closure/method/generic arguments, the argument of a trait method called in path / dot form on a concrete receiver and on a type-parameter receiver whose type is known at the call or only after a generic call / through a closure parameter / through a field of a generic struct) x 10 expressions of different types (the well-typed one must be accepted, the other nine rejected by the typer); 32 structural errors (a field / method result / pattern variable of a generic struct or enum used at the type of another of its parameters, inside a generic function whose parameters carry the struct's parameter names in another order; array length in annotation/param/return, unknown/missing/extra field, call and constructor arity, tuple projection range, pattern arity/type, calling a non-function, unknown type/variant; a trait method called in path form with too many / too few arguments, without the bound, under another bound, with no impl for the receiver - the receiver reached directly, through a generic call, a closure parameter, a field); literal patterns: 4 literal kinds x 10 scrutinee types x 6 positions (directly; under a generic constructor, in a tuple from a generic call, on a closure parameter, on a let-bound generic result - the scrutinee's type still being inferred; against a rigid type parameter): rejected unless the literal's kind is the type's; written types: 24 spellings (6 well-formed; unknown names bare and under Vec / Ref / array / tuple / function types / a generic struct, a generic struct with no / too many arguments also under Vec, arguments given to a non-generic struct or a builtin, dyn of a missing trait / of a struct, the enclosing function's type parameter and one that is nobody's) x 16 places a type can be written (parameter, result, struct field, enum payload, let annotation in main / in an unused function / in a closure / in a match arm / on a tuple pattern / in a generic function, closure parameter plain / nested / second, method parameter, trait method parameter, extern parameter): accepted iff well-formed; operator domain: 12 binary + 2 unary operators x 13 operand types, written directly and inside a generic function instantiated at the type (accepted iff inside the documented domain). non-trivial = ill-typed variants; distinct = distinct source text"
+        "30 typed positions (operator operands, annotated let, parameters, conditions, return position, struct field, constructor payload, array element/index/set, ref_set, vec_push, branches, closure/method/generic arguments, the argument of a trait method called in path / dot form on a concrete receiver and on a type-parameter receiver whose type is known at the call or only after a generic call / through a closure parameter / through a field of a generic struct) x 10 expressions of different types (the well-typed one must be accepted, the other nine rejected by the typer); 32 structural errors (a field / method result / pattern variable of a generic struct or enum used at the type of another of its parameters, inside a generic function whose parameters carry the struct's parameter names in another order; array length in annotation/param/return, unknown/missing/extra field, call and constructor arity, tuple projection range, pattern arity/type, calling a non-function, unknown type/variant; a trait method called in path form with too many / too few arguments, without the bound, under another bound, with no impl for the receiver - the receiver reached directly, through a generic call, a closure parameter, a field); literal patterns: 4 literal kinds x 10 scrutinee types x 6 positions (directly; under a generic constructor, in a tuple from a generic call, on a closure parameter, on a let-bound generic result - the scrutinee's type still being inferred; against a rigid type parameter): rejected unless the literal's kind is the type's; written types: 24 spellings (6 well-formed; unknown names bare and under Vec / Ref / array / tuple / function types / a generic struct, a generic struct with no / too many arguments also under Vec, arguments given to a non-generic struct or a builtin, dyn of a missing trait / of a struct, the enclosing function's type parameter and one that is nobody's) x 16 places a type can be written (parameter, result, struct field, enum payload, let annotation in main / in an unused function / in a closure / in a match arm / on a tuple pattern / in a generic function, closure parameter plain / nested / second, method parameter, trait method parameter, extern parameter): accepted iff well-formed; operator domain: 12 binary + 2 unary operators x 13 operand types, written directly and inside a generic function instantiated at the type (accepted iff inside the documented domain). non-trivial = ill-typed variants; distinct = distinct source text; plus literal patterns at the edge of every integer type (the largest value, one past it, twice past it) x the 6 places a scrutinee type is learned x 8 types: past the largest value must be rejected (also reported under C10); plus array lengths written in a signature (3 = the value's length, 2, 0, 4, 2^63-1, 2^64-1 - the compiler's own any-length marker -, 2^64) x 6 nestings (bare, in a Ref / tuple / Vec / generic enum, array of arrays) x called directly / through a closure: only 3 is accepted, every case terminates"
     }
     fn cases(&self, _tier: Tier) -> Box<dyn Iterator<Item = Value> + '_> {
         let mut v = Vec::new();
@@ -233,6 +263,22 @@ impl Family for IllTyped {
             for (lk, _) in LITPATS {
                 for (t, _, _, _) in LITTYPES {
                     v.push(json!({"kind": "literal-pattern", "position": pos, "literal": lk, "ty": t}));
+                }
+            }
+        }
+        // array lengths written in a signature, at the edges of the length's own type, bare and nested
+        for (n, _, _) in ARRAY_NESTS {
+            for l in ARRAY_LENGTHS {
+                for route in ["called-directly", "through-a-closure"] {
+                    v.push(json!({"kind": "array-length", "nest": n, "length": l, "route": route}));
+                }
+            }
+        }
+        // a literal pattern one past the largest value of the scrutinee's type, wherever that type is learned
+        for (pos, _) in LITPOSITIONS {
+            for (t, _, _, _) in INT_RANGES {
+                for which in ["largest", "one-past-the-largest", "twice-the-largest-plus-two"] {
+                    v.push(json!({"kind": "literal-pattern-range", "position": pos, "ty": t, "literal": which}));
                 }
             }
         }
@@ -274,6 +320,30 @@ impl Family for IllTyped {
                 // a rigid type parameter admits no literal pattern at all
                 let ok = *admits == lk && pos != "rigid-type-parameter";
                 (text, ok, format!("literal-pattern={};literal={};ty={}", pos, lk, ty))
+            }
+            "array-length" => {
+                let (nest, len, route) = (case["nest"].as_str().unwrap(), case["length"].as_str().unwrap(), case["route"].as_str().unwrap());
+                let (_, ty, value) = ARRAY_NESTS.iter().find(|(n, _, _)| *n == nest).unwrap();
+                let ty = ty.replace('L', len);
+                let call = if route == "through-a-closure" { "let f = |q| keep(q);\n    let r = f(VALUE);".replace("VALUE", value) } else { format!("let r = keep({});", value) };
+                let text = format!("{}enum GOpt[T] {{ GNon, GSom(T) }}\nfn keep(r: {}) -> {} {{ r }}\nfn main() -> unit {{\n    {}\n    string_println(\"x\")\n}}\n", PRELUDE, ty, ty, call);
+                // the value is an array of three elements: only the length 3 fits
+                (text, len == "3", format!("array-length={};nest={};route={}", len, nest, route))
+            }
+            "literal-pattern-range" => {
+                let (pos, ty, which) = (case["position"].as_str().unwrap(), case["ty"].as_str().unwrap(), case["literal"].as_str().unwrap());
+                let (_, tmpl) = LITPOSITIONS.iter().find(|(n, _)| *n == pos).unwrap();
+                let (_, suffix, max, _) = INT_RANGES.iter().find(|(t, _, _, _)| *t == ty).unwrap();
+                let lit: u128 = match which {
+                    "largest" => *max,
+                    "one-past-the-largest" => *max + 1,
+                    _ => 2 * *max + 2,
+                };
+                let text = format!("{}enum GOpt[T] {{ GNon, GSom(T) }}\n{}\n", PRELUDE, tmpl.replace('§', &lit.to_string()).replace('@', &format!("5{}", suffix)).replace('%', ty));
+                // in range: accepted where the type is known when the pattern is visited (elsewhere it may be
+                // refused with a diagnostic); out of range: never accepted
+                let ok = which == "largest" && pos != "rigid-type-parameter";
+                (text, ok, format!("literal-pattern-range={};ty={};literal={}", pos, ty, which))
             }
             "written-type" => {
                 let (pos, ty) = (case["position"].as_str().unwrap(), case["ty"].as_str().unwrap());
@@ -333,6 +403,9 @@ impl Family for IllTyped {
                 } else {
                     rep.tag("ill-typed:accepted");
                     let class = if case["kind"] == "operator" { "operator-domain.accepted" } else { "ill-typed.accepted" };
+                    if case["kind"] == "literal-pattern-range" {
+                        rep.findings.push(Finding { property: "C10", class: class.into(), site: site.clone(), detail: "a literal pattern that does not fit the scrutinee's type was accepted".into(), replay: replay.clone() });
+                    }
                     rep.findings.push(Finding { property: "C03", class: class.into(), site, detail: "an ill-typed program was accepted".into(), replay });
                 }
             }
